@@ -212,6 +212,41 @@ func driveC13(seed int64, tier, out, replay string) {
 		}
 	}
 	var coq []string
+	// hand-made results with lists of lists, nulls and scalars inside lists: the real Clean vs the model (fix: lists
+	// of lists used to be deleted together with their parents)
+	for hi, hc := range []struct {
+		sf     planner.ScrubFields
+		before string
+		want   string // helpers gone from every object the path reaches, everything else as it was
+	}{
+		{planner.ScrubFields{"me.matrix": {"Pet": {"id"}}},
+			`{"me":{"id":"h1","matrix":[[{"id":"p1","kind":"cat"},{"id":"p2"}],[],[{"id":"p2","kind":"dog"}]]}}`,
+			`{"me":{"id":"h1","matrix":[[{"kind":"cat"},{}],[],[{"kind":"dog"}]]}}`},
+		{planner.ScrubFields{"me.matrix": {"Pet": {"id"}}},
+			`{"me":{"x":1,"matrix":[[{"id":"p1","k":1}],[{"id":"p2","k":2}]]}}`,
+			`{"me":{"matrix":[[{"k":1}],[{"k":2}]],"x":1}}`},
+		{planner.ScrubFields{"l": {"A": {"id", "__typename"}, "B": {"__typename"}}},
+			`{"l":[[{"__typename":"A","id":"1","x":1},{"__typename":"B","y":2}],null,[[{"__typename":"B","id":"2"}]],"s",7]}`,
+			`{"l":[[{"x":1},{"y":2}],null,[[{"id":"2"}]],"s",7]}`},
+		{planner.ScrubFields{"a.b": {"T": {"id"}}},
+			`{"a":[{"b":[[{"id":"1","k":false}]]},{"b":[]},{"b":null},{"b":[[],[{"id":"2","k":true}]]}]}`,
+			`{"a":[{"b":[[{"k":false}]]},{"b":[]},{"b":null},{"b":[[],[{"k":true}]]}]}`},
+	} {
+		var before map[string]interface{}
+		dec := json.NewDecoder(strings.NewReader(hc.before))
+		dec.UseNumber()
+		if dec.Decode(&before) != nil {
+			continue
+		}
+		beforeCoq := jsonObjToCoq(before)
+		hc.sf.Clean(before)
+		if got := fake.CanonJSON(before); got != hc.want {
+			obs.Fail(hi, fmt.Sprintf("ScrubFields %v cleaning %s gives %s, expected %s", hc.sf, hc.before, got, hc.want), map[string]interface{}{"scrub_fields": hc.sf, "result_before_clean": hc.before})
+		}
+		coq = append(coq, fmt.Sprintf("mkCase %s\n    %s\n    %s", scrubToCoq(hc.sf), beforeCoq, jsonObjToCoq(before)))
+		obs.CaseInputs = append(obs.CaseInputs, c13Case{})
+		obs.Count("hand_made_results_with_lists_of_lists")
+	}
 	distinct := map[string]bool{}
 	idx := 0
 	for _, c := range cases {
